@@ -129,6 +129,15 @@ fn c01_q_weekday_filter() {
     weekday_filter_harness(0, 0);
 }
 
+/// Same with a symbolic day offset of one day either way (an nth-from-end position then depends on
+/// the length of the neighbouring month).
+#[kani::proof]
+#[kani::unwind(1)]
+#[kani::stub(opening_hours::utils::dates::count_days_in_month, crate::util::count_days_in_month_spec)]
+fn c01_q_weekday_filter_offset1() {
+    weekday_filter_harness(-1, 1);
+}
+
 /// Same with a symbolic day offset in -3..=3.
 #[kani::proof]
 #[kani::unwind(1)]
